@@ -18,6 +18,7 @@ import (
 	"path"
 	"reflect"
 	"regexp"
+	"sort"
 	"strconv"
 	"strings"
 
@@ -287,34 +288,82 @@ func decode(ctx, raw string) (string, bool) {
 	return raw, true
 }
 
-// checkPage judges one rendered page: every slot is present the expected number of times, decodes to the option
-// value, and no option value with a metacharacter occurs verbatim.
+var reCharRef = regexp.MustCompile(`^&(?:[a-zA-Z][a-zA-Z0-9]*|#[0-9]+|#[xX][0-9a-fA-F]+);`)
+
+// escapedOnly reports whether the raw text found at a slot carries its value only in escaped form for the
+// slot's context: in HTML text, RCDATA and quoted attributes no < > " ' and no & that does not start a character
+// reference; in a JavaScript string nothing that could end the string's script element or open a comment (the
+// delimiting quote is already excluded by the way the slot is cut out of the page).
+func escapedOnly(ctx, raw string) (string, bool) {
+	switch ctx {
+	case "html", "urlattr":
+		if i := strings.IndexAny(raw, `<>"'`); i >= 0 {
+			return raw[i : i+1], false
+		}
+		for i := 0; i < len(raw); i++ {
+			if raw[i] == '&' && !reCharRef.MatchString(raw[i:]) {
+				return "&", false
+			}
+		}
+	case "js":
+		low := strings.ToLower(raw)
+		for _, bad := range []string{"</", "<!--", "-->"} {
+			if strings.Contains(low, bad) {
+				return bad, false
+			}
+		}
+	}
+	return "", true
+}
+
+// checkPage judges one rendered page: every slot is present the expected number of times, carries its value only
+// escaped, decodes to the option value, and no option value with a metacharacter occurs anywhere else.
 func checkPage(page string, sl []slot, values []string) *kit.Violation {
+	var cut [][2]int
 	for _, s := range sl {
-		ms := s.re.FindAllStringSubmatch(page, -1)
+		ms := s.re.FindAllStringSubmatchIndex(page, -1)
 		if len(ms) != len(s.wants) {
 			return kit.Failf("PAGE-STRUCTURE %s: found %d times, want %d (an option value broke out of its place?)", s.name, len(ms), len(s.wants))
 		}
 		for i, m := range ms {
+			raw := page[m[2]:m[3]]
+			cut = append(cut, [2]int{m[2], m[3]})
+			if bad, ok := escapedOnly(s.ctx, raw); !ok {
+				return kit.Failf("PAGE-UNESCAPED %s: rendered %q, which contains a bare %q", s.name, raw, bad)
+			}
 			if s.wants[i] == skip {
 				continue
 			}
-			got, ok := decode(s.ctx, m[1])
+			got, ok := decode(s.ctx, raw)
 			if !ok {
-				return kit.Failf("PAGE-DECODE %s: %q is not a well-formed %s literal", s.name, m[1], s.ctx)
+				return kit.Failf("PAGE-DECODE %s: %q is not a well-formed %s literal", s.name, raw, s.ctx)
 			}
 			if s.ctx == "urlattr" {
 				if pctDecode(got) != pctDecode(s.wants[i]) {
-					return kit.Failf("PAGE-VALUE %s: rendered %q, which un-escapes to %q and denotes %q; the option is %q", s.name, m[1], got, pctDecode(got), s.wants[i])
+					return kit.Failf("PAGE-VALUE %s: rendered %q, which un-escapes to %q and denotes %q; the option is %q", s.name, raw, got, pctDecode(got), s.wants[i])
 				}
 			} else if got != s.wants[i] {
-				return kit.Failf("PAGE-VALUE %s: rendered %q, which un-escapes to %q; the option is %q", s.name, m[1], got, s.wants[i])
+				return kit.Failf("PAGE-VALUE %s: rendered %q, which un-escapes to %q; the option is %q", s.name, raw, got, s.wants[i])
 			}
 		}
 	}
+	// the rest of the page, with the slots cut out
+	sort.Slice(cut, func(i, j int) bool { return cut[i][0] < cut[j][0] })
+	var rest strings.Builder
+	pos := 0
+	for _, c := range cut {
+		if c[0] > pos {
+			rest.WriteString(page[pos:c[0]])
+		}
+		rest.WriteString("\x00")
+		if c[1] > pos {
+			pos = c[1]
+		}
+	}
+	rest.WriteString(page[pos:])
 	for _, v := range values {
-		if hostile(v) && strings.Contains(page, v) {
-			return kit.Failf("PAGE-UNESCAPED the option value %q occurs verbatim in the page", v)
+		if hostile(v) && strings.Contains(rest.String(), v) {
+			return kit.Failf("PAGE-UNESCAPED the option value %q occurs verbatim in the page outside the places that render it", v)
 		}
 	}
 	return nil
